@@ -490,10 +490,11 @@ int main(int argc, char **argv) {
         uv_free(&f);
     }
     snprintf(mc_bounds, sizeof mc_bounds, "origins: FULL(0..1) + FINE level 2 (%s) at resolutions 2..15 = %zu origins; k<=%d (1 at res 0, 2 at res 1); 11 patterns (full, centre removed, island in hole, alternate, two disks, one neighbour removed, thick ring, scattered ring, nested donuts, nested donuts + isolated cells, triple nesting)", mc_thorough ? "all" : "every 5th", g_dom.n, g_kmax);
-    mc_phase("set catalogue", ph_sets, NULL);
     mc_phase("sets around the poles (error clause)", ph_polar, NULL);
     mc_phase("sets with a planted non-cell (error clause)", ph_bad, NULL);
     mc_phase("wide bands at resolutions 0-2", ph_band, NULL);
     mc_phase("triple nesting from thinned origins", ph_nest3, NULL);
+    // the large catalogue last, so that a deadline cuts only it short
+    mc_phase("set catalogue", ph_sets, NULL);
     return mc_finish();
 }
